@@ -1,4 +1,6 @@
-from vlib import Check
+import os
+import re
+from vlib import Check, V
 
 PID = "C19"
 
@@ -41,6 +43,32 @@ def recipe(c: Check):
             if cc.get(k, 0) <= 0:
                 c.broken.append(dict(kind="coverage", name="reconcile driver never reached %s" % k,
                                      detail="the generated reload histories did not exercise a branch the property names"))
+    st3 = c.run_driver("visitors", q(c.tier, 70, 600), shards=q(c.tier, 2, 8), timeout=q(c.tier, 300, 1500))
+    if st3:
+        cc = c.cov.get("coq_counters", {}).get("visitors", {})
+        for k in ("NVCLOSED", "NVSTARTFAILED", "NVKEEPRESTARTED", "NVDUPLICATE"):
+            if cc.get(k, 0) <= 0:
+                c.broken.append(dict(kind="coverage", name="visitors driver never reached %s" % k,
+                                     detail="the generated visitor reload histories did not exercise a branch the property names"))
+    st4 = c.run_driver("system", q(c.tier, 5, 40), shards=1, timeout=q(c.tier, 300, 1500))
+    if st4:
+        # F-C19c: late error reply taken by the wrapper that replaced the sender.  Decision is the lead's:
+        # a "finding:" line with this key makes it a KNOWN-FINDING, a "fixed:" line mentioning F-C19c makes the
+        # scenario a hard check; with neither it is carried as a note (the Coq side states it as a refuted theorem).
+        key = "system:late-error-reply-after-replacement"
+        kf = open(os.path.join(V, "KNOWN_FINDINGS.txt")).read() if os.path.exists(os.path.join(V, "KNOWN_FINDINGS.txt")) else ""
+        fixed = re.search(r"^fixed:.*property=C19.*F-C19c", kf, re.M) is not None
+        listed = re.search(r"^finding:\s+property=C19\s+key=" + re.escape(key), kf, re.M) is not None
+        f = (st4.get("fc19c") or {})
+        if f.get("reproduced"):
+            if fixed or listed:
+                c.failures.append(dict(key=key, driver="system", case=f.get("case"),
+                                       what="a reload changes a proxy while the replaced wrapper's NewProxy is unanswered and that NewProxy is "
+                                            "refused: " + "; ".join(f.get("observations", []))))
+            else:
+                c.notes.append("F-C19c reproduced on the real code (pending decision: fix or list): " + "; ".join(f.get("observations", [])))
+        else:
+            c.notes.append("F-C19c did not reproduce on this run")
     return c.finish(
         rule="health driver: real health.Monitor (tcp and http) against a scripted backend (accept / refuse / dial or answer "
              "timeout / http status), interval 40 ms, timeout 100 ms (a case whose callbacks look wrong is re-run once with 300/500 ms before it is reported); quick: directed sequences (incl. the F-C19 witness) plus "
@@ -54,6 +82,16 @@ def recipe(c: Check):
              "waiting), health callbacks, work connections, expiry of waitResponseTimeout / startErrTimeout, Manager.Close; "
              "statusCheckInterval = 1 h and every live checkWorker woken twice per step through its notification channel; "
              "compared per step: set of NewProxy/CloseProxy messages, call result, status rows (name, wrapper identity, phase, "
-             "Err set, configuration object). non-trivial = at least one message observed",
+             "Err set, configuration object). non-trivial = at least one message observed. visitors driver: real "
+             "visitor.Manager with real STCP visitors on loopback ports; histories of UpdateAll (add, remove, change a field, "
+             "reorder, duplicate names, identical reload) and keepVisitorsRunning rounds (4 ms period), start failures scripted "
+             "by occupying the bind port; compared per step: configured names with configuration object, running or not, same "
+             "visitor object as before, listeners of closed visitors gone. non-trivial = some visitor ran. system driver: real "
+             "frpc against an in-process frps with a stub NewProxy/CloseProxy server plugin (records, holds, rejects): quiescent "
+             "reload sequences compared with the model (requests seen by the server, client status rows), continuity of an open "
+             "tunnel connection across every reload that leaves its proxy unchanged, reloads placed while a NewProxyResp is "
+             "outstanding (removed / changed / reordered / duplicate added / refused), convergence of server registrations and "
+             "client statuses afterwards; a failing scenario is repeated with 3x and 10x settling time and reported only if it fails "
+             "every time",
         assumptions=["probe outcome, clock and the result of proxy.Run()/visitor.Run() are operation arguments (oracles)",
                      "failedTimes is a uint64 in Go and an unbounded Z in the model (2^63 consecutive failures are out of reach)"])
